@@ -3,13 +3,14 @@ import Iodata.Model.Effects
 namespace Iodata.Gen.Effects
 open Iodata.Effects
 
--- 270 functions analysed, 73 with an argument-rooted parameter
+-- 271 functions analysed, 73 with an argument-rooted parameter
 def sites : List Site := [
+  { module := "iodata.__main__", func := "main", kind := "process-global:seterr", target := "np.seterr", root := .glob },
   { module := "iodata.formats.molden", func := "_load_low", kind := "store-subscript", target := "shell.kinds[0]", root := .glob },
   { module := "iodata.formats.pdb", func := "dump_one", kind := "mutcall:append", target := "connections[iatom0]", root := .arg },
   { module := "iodata.formats.pdb", func := "dump_one", kind := "mutcall:append", target := "connections[iatom1]", root := .arg },
   { module := "iodata.iodata", func := "IOData.atcorenums", kind := "store-attr", target := "self.atcorenums", root := .arg }
 ]
 
-def functionsAnalysed : Nat := 270
+def functionsAnalysed : Nat := 271
 end Iodata.Gen.Effects
